@@ -326,6 +326,12 @@ def run_c18(tier, seed):
         popnames = {"Wallet1": ["acc", "Acc1", "Wallet1"], "Wallet2": ["acc", "Acc1"], "Wallet10": ["acc"], "xWallet2": ["Acc1", "acc"]}
         world0 = dict(wallets=[dict(name=w, type="nd", accounts=[dict(name=a, key=wi * 4 + ai) for ai, a in enumerate(accts)])
                                for wi, (w, accts) in enumerate(popnames.items())])
+        # accounts are told apart by wallet and name, not by key: the same validator key imported into two wallets (Wallet2/acc and
+        # xWallet2/acc, Wallet1/Acc1 and Wallet10/acc) and twice into one wallet under two names (Wallet1/acc and Wallet1/Wallet1)
+        keyidx = {(w_["name"], a_["name"]): a_ for w_ in world0["wallets"] for a_ in w_["accounts"]}
+        keyidx[("xWallet2", "acc")]["key"] = keyidx[("Wallet2", "acc")]["key"]
+        keyidx[("Wallet10", "acc")]["key"] = keyidx[("Wallet1", "Acc1")]["key"]
+        keyidx[("Wallet1", "Wallet1")]["key"] = keyidx[("Wallet1", "acc")]["key"]
         nconf = 24 if tier == "quick" else 160
         scenarios, cfgs = [], {}
         pids = sorted(PATHCAT)
